@@ -61,7 +61,7 @@ def gen_table(d):
           % (coq_str(x["module"]), coq_str(x["attr"]), "MMemo" if x["kind"] == "memo" else "MMetadata", coq_z(x["classes"]),
              b(x["mutated"]), b(x["aliases"])) for x in d.get("classmeta", [])]
     psk = {"cwd": "KCwd", "environ": "KEnviron", "sys.path": "KSysPath", "warnings": "KWarnings", "logging": "KLogging",
-           "recursionlimit": "KRecursion", "locale": "KLocale", "stdio": "KStdio"}
+           "recursionlimit": "KRecursion", "locale": "KLocale", "stdio": "KStdio", "module-attribute": "KModuleAttr"}
     ps = ["{| ps_module := %s; ps_func := %s; ps_kind := %s; ps_import_time := %s; ps_restored := %s |}"
           % (coq_str(x["module"]), coq_str(x["func"]), psk[x["kind"]], b(x["scope"] != "function"), b(x["restored"]))
           for x in d.get("process_state", [])]
@@ -244,7 +244,36 @@ W_POOL += [
     {"name": "vb/model/cell.nml", "kind": "xml", "items": [["iaf_cells", "cellvb"]], "includes": []},
     {"name": "vb/model/net.nml", "kind": "xml", "raw": _vdoc("vb"), "items": [["pulse_generators", "pgvb"]], "includes": ["cell.nml"]},
 ]
+_NS = '<neuroml xmlns="http://www.neuroml.org/schema/neuroml2" id="%s">\n'
+_IAF = '    <iafCell id="%s" leakReversal="-65mV" thresh="-50mV" reset="-65mV" C="1.0 nF" leakConductance="10 nS"/>\n'
+W_POOL += [
+    # an HDF5 network whose projection names a population that does not exist: the build fails inside parse_group (KeyError)
+    {"name": "w_badproj.nml.h5", "kind": "h5", "items": [["iaf_cells", "iafz"]], "includes": [], "model_kind": "FXml",
+     "net": {"id": "wbad", "pops": [{"id": "p0", "comp": "iafz", "size": 2}],
+             "projs": [{"id": "prz", "pre": "pX", "post": "p0", "syn": "nosyn", "conns": [[0, "../pX[0]", "../p0[1]"]]}], "ilists": []}},
+    # a document id that build-time validation refuses (ValueError in NetworkBuilder.handle_document_start .. add)
+    {"name": "w_badid.nml", "kind": "xml", "items": [], "includes": [], "model_kind": "FH5", "only_eps": ["xmlparser"],
+     "raw": (_NS % "net-1") + (_IAF % "c0") + '    <network id="n1">\n        <population id="p0" component="c0" size="1"/>\n'
+            '    </network>\n</neuroml>\n'},
+    # defines the component id that w_x.nml leaves dangling
+    {"name": "w_xdef.nml", "kind": "xml", "items": [["iaf_cells", "lemsOscillator"]], "includes": [],
+     "net": {"id": "netXdef", "pops": [{"id": "popD", "comp": "lemsOscillator", "size": 1}], "projs": [], "ilists": []}},
+    # the same <explicitInput> twice
+    {"name": "w_expl.nml", "kind": "xml", "items": [["iaf_cells", "ce"], ["pulse_generators", "pge"]], "includes": [],
+     "net": {"id": "netexpl", "pops": [{"id": "pe", "comp": "ce", "size": 2}], "projs": [], "ilists": []},
+     "raw": (_NS % "doc_w_expl") + (_IAF % "ce") + '    <pulseGenerator id="pge" delay="0ms" duration="10ms" amplitude="1nA"/>\n'
+            '    <network id="netexpl">\n        <population id="pe" component="ce" size="2"/>\n'
+            '        <explicitInput target="pe[0]" input="pge"/>\n        <explicitInput target="pe[0]" input="pge"/>\n'
+            '    </network>\n</neuroml>\n'},
+]
 W_HIST = [
+    ("a failing HDF5 build (unknown population), then a parser-driven build that build-time validation refuses",
+     [{"ep": "h5", "name": "w_badproj.nml.h5"}, {"ep": "xmlparser", "name": "w_badid.nml"},
+      {"ep": "file", "name": "w_badproj.nml.h5", "incl": True}, {"ep": "xmlparser", "name": "w_badid.nml"}]),
+    ("XML-parser builds: a dangling component id first, then a file that defines that id",
+     [{"ep": "xmlparser", "name": "w_x.nml"}, {"ep": "xmlparser", "name": "w_xdef.nml"}, {"ep": "file", "name": "w_xdef.nml", "incl": True}]),
+    ("two XML-parser builds of a network with a repeated <explicitInput>",
+     [{"ep": "xmlparser", "name": "w_expl.nml"}, {"ep": "xmlparser", "name": "w_expl.nml"}]),
     ("a diamond of includes met in another order by an earlier load",
      [{"ep": "file", "name": "w_dtop1.nml", "incl": True}, {"ep": "file", "name": "w_dtop2.nml", "incl": True},
       {"ep": "string", "name": "w_dtop2.nml", "incl": True}, {"ep": "file", "name": "w_dtop1.nml", "incl": True}]),
@@ -405,6 +434,8 @@ def gen_calls(rng, pool):
                 calls.append({"ep": "file", "name": n, "incl": True, "rel": True})
                 calls.append({"ep": "string", "name": n, "incl": True, "base": "none"})
                 calls.append({"ep": "inner_path", "name": n, "incl": True, "rel": True})
+    only = {f["name"]: f["only_eps"] for f in pool if f.get("only_eps")}
+    calls = [c for c in calls if c["name"] not in only or c["ep"] in only[c["name"]]]
     calls.append({"ep": "file", "name": "nonexistent_top.nml", "incl": True})
     calls.append({"ep": "file", "name": "nonexistent_top.nml", "incl": True, "rel": True})
     calls.append({"ep": "h5", "name": "nonexistent_top.nml.h5"})
@@ -650,7 +681,8 @@ def proc_key(chg, c):
         return K_RESET
     if chg["what"] == "warnings-filters" and chg.get("how") == "ignore-left":
         return K_IGNORE
-    return "C07:process-state:%s-changed-by:%s%s" % (chg["what"], c["ep"], ":after-failure" if chg.get("after_failure") else "")
+    what = chg["what"] if chg["what"] != "module-variables" else "module-variable:" + ",".join(chg.get("names", [])[:2])
+    return "C07:process-state:%s-changed-by:%s%s" % (what, c["ep"], ":after-failure" if chg.get("after_failure") else "")
 
 
 def probe_warnings(ck, pr):
@@ -945,6 +977,7 @@ def check_object_schedules(ck, streams, scheds, solo, sres):
 
     for si, (ops, r) in enumerate(zip(streams, solo)):
         writes(r, [["A", o] for o in ops], "A")
+        r.pop("argument_writes", None)      # reported above; the documents are compared below
     for (ia, ib, order, sched), r in zip(scheds, sres):
         ra = {v for o in streams[ia] for v in op_refs(o).values()}
         rb = {v for o in streams[ib] for v in op_refs(o).values()}
